@@ -92,13 +92,14 @@ func init() {
 	// ------------------------------------------------------------------ C12
 	register("C12", func(c *engine.Ctx) {
 		c.Rule = "random schemas (all features, titles, numeric-looking keys) x random option sets; each generated: three times in one process, from files whose objects have their keys in three different random orders, from a relocated directory, and (a sample) by the CLI binary in separate processes; all outputs must be byte-identical under the same names. Colliding names: sets of definition / property names that normalise to one identifier, with different content, generated 30 times in one process with shuffled key orders. Repeated branches: allOf / anyOf listing one definition twice next to a branch that disagrees on first-wins keywords, 30 generations each. Resolve-extension order: an extension-less reference with candidate files .json / .yaml / .yml of different content, three orders of the extension list: the first listed wins, 30 generations each. Mapping order: sets of 1..4 schema mappings whose ids are pairwise distinct but nearly equal to the schema's $id (trailing # or /, letter case, trailing space, prefix) in EVERY slice order (main.go takes the order from a map): identical outputs, equal to the model's route / rootOverride. Command line in separate processes: the extension-less reference with 2-3 --resolve-extension flags in six orders and spellings (first listed wins where it has its dot), and one invocation with three mapped ids, 13 processes each, byte-identical. Distinct = distinct (option set, schema shape)."
-		c.Proofs([]string{"GJS.Props.C12", "GJS.Props.FlatOrder", "GJS.Props.TreeOrder"}, []string{
+		c.Proofs([]string{"GJS.Props.C12", "GJS.Props.FlatOrder", "GJS.Props.TreeOrder", "GJS.Props.NoPackageState"}, []string{
+			"GJS.Props.NoPackageState.library_has_no_package_state", "GJS.Props.NoPackageState.command_flags_listed",
 			"GJS.Props.Tree.key_order_unobservable_tree", "GJS.Props.Tree.run_tree_key_order", "GJS.Props.Tree.TreeSame.of_perm",
 			"GJS.Props.Flat.key_order_unobservable", "GJS.Props.Flat.run_key_order",
 			"GJS.Props.C12.sortedKeys_perm", "GJS.Props.C12.alookup_perm", "GJS.Props.C12.visited_perm", "GJS.Props.C12.parseTypeList_order_free",
 			"GJS.Props.C12.route_perm", "GJS.Props.C12.rootOverride_perm", "GJS.Props.C12.route_exact",
 		})
-		factsOf(c, "mapRanges")
+		factsOf(c, "mapRanges", "packageVars")
 		tmp, _ := os.MkdirTemp("", "gjsc12")
 		defer os.RemoveAll(tmp)
 		fails := 0
